@@ -33,14 +33,16 @@ func Init() {
 
 // Opts mirrors the command line flags the cmd layer turns into preferences.
 type Opts struct {
-	In       string `json:"in,omitempty"`  // input format name, default yaml
-	Out      string `json:"out,omitempty"` // output format name, default yaml
-	Indent   int    `json:"indent,omitempty"`
-	IndentSet bool  `json:"indent_set,omitempty"` // Indent 0 is meaningful
-	Unwrap   *bool  `json:"unwrap,omitempty"`
-	NoDocSep bool   `json:"no_doc_sep,omitempty"`
-	EvalAll  bool   `json:"eval_all,omitempty"`
-	NullIn   bool   `json:"null_in,omitempty"`
+	In        string `json:"in,omitempty"`  // input format name, default yaml
+	Out       string `json:"out,omitempty"` // output format name, default yaml
+	Indent    int    `json:"indent,omitempty"`
+	IndentSet bool   `json:"indent_set,omitempty"` // Indent 0 is meaningful
+	Unwrap    *bool  `json:"unwrap,omitempty"`
+	NoDocSep  bool   `json:"no_doc_sep,omitempty"`
+	EvalAll   bool   `json:"eval_all,omitempty"`
+	NullIn    bool   `json:"null_in,omitempty"`
+	// Tweak sets format preferences (the --csv-*, --xml-*, --lua-*, --properties-* flags) after the defaults are in place.
+	Tweak func() `json:"-"`
 }
 
 // Outcome is what happened to one yq evaluation.
@@ -105,6 +107,9 @@ func ApplyOpts(o Opts) (yqlib.Encoder, yqlib.Decoder, error) {
 	yqlib.ConfiguredJSONPreferences.UnwrapScalar = unwrap
 	yqlib.ConfiguredYamlPreferences.PrintDocSeparators = !o.NoDocSep
 	yqlib.ConfiguredYamlPreferences.EvaluateTogether = o.EvalAll
+	if o.Tweak != nil {
+		o.Tweak()
+	}
 	if outF.EncoderFactory == nil {
 		return nil, nil, fmt.Errorf("no support for %s output format", out)
 	}
